@@ -857,7 +857,34 @@ impl Property for C11 {
     }
     fn generate(&self, rng: &mut Rng, _case: u64) -> Scenario {
         if rng.chance(30) {
-            return super::watch::gen_watch(rng, &super::watch::WatchOpts { service_bias: true, fail_pct: 25, watch_fail_pct: 35, ..Default::default() });
+            let mut sc = super::watch::gen_watch(rng, &super::watch::WatchOpts { service_bias: true, fail_pct: 25, watch_fail_pct: 35, ..Default::default() });
+            // four sessions in ten are interrupted while a build that some service depends on is
+            // being re-run (the service's restart is pending then), not at an idle point
+            if rng.chance(40) {
+                let all = sc.all_targets();
+                let services: Vec<Tid> = all.iter().filter(|t| model::kind_of(&sc, t) == Some(Kind::Service)).cloned().collect();
+                let mut cands: Vec<Tid> = vec![];
+                for sv in &services {
+                    for d in model::transitive_effective_deps(&sc, sv) {
+                        if model::kind_of(&sc, &d) == Some(Kind::Build) && !cands.contains(&d) {
+                            cands.push(d);
+                        }
+                    }
+                }
+                if !cands.is_empty() {
+                    let d = rng.pick(&cands).clone();
+                    let id = sc.sim_id(d.0, &d.1);
+                    let nth = rng.range(1, 2) as u32;
+                    if let Some(Step::Invoke(inv)) = sc.steps.last_mut() {
+                        for e in inv.plan.events.iter_mut() {
+                            if matches!(e.kind, simrt::plan::PlanEventKind::Signal) {
+                                e.gate = simrt::plan::Gate::Running { id: id.clone(), nth };
+                            }
+                        }
+                    }
+                }
+            }
+            return sc;
         }
         let mut sc = gen::gen_graph(rng, &GraphOpts { max_n: 8, ..Default::default() });
         // make services more frequent
@@ -957,7 +984,7 @@ impl Property for C17 {
         }
     }
     fn rule(&self) -> &'static str {
-        "one case = generated project in which an antichain of 2..6 mutually independent build targets (none reachable from another) carries rendezvous-gated scripts: a member's exit event is enabled only once every member has started; unrelated never-ending builds and services run alongside. The run can complete iff all members overlap; a stall with an unstarted member whose dependencies are all ready is the violation. A fifth of the cases run with --watch, members watching several directories that are written to while targets are still being launched. distinct_nontrivial = distinct order hashes among runs where at least two members were in progress together"
+        "one case = generated project in which an antichain of 2..6 mutually independent build targets (none reachable from another) carries rendezvous-gated scripts: a member's exit event is enabled only once every member has started; unrelated never-ending builds and services run alongside. The run can complete iff all members overlap; a stall with an unstarted member whose dependencies are all ready is the violation. Three cases in ten run with --watch, members watching several directories that are written to while targets are still being launched. distinct_nontrivial = distinct order hashes among runs where at least two members were in progress together"
     }
     fn generate(&self, rng: &mut Rng, case_no: u64) -> Scenario {
         let mut sc = gen::gen_graph(rng, &GraphOpts { max_n: 9, ..Default::default() });
@@ -1071,7 +1098,7 @@ impl Property for C17 {
         // directories under one extension filter (one watcher, several registrations), and files
         // in them are written while the targets are still being launched. Watching is per target
         // and must not hold up the launch of anybody else.
-        let watch_variant = case_no % 60 != 7 && cmd_ids.len() < 2 && rng.chance(20);
+        let watch_variant = case_no % 60 != 7 && cmd_ids.len() < 2 && rng.chance(30);
         let mut watched_files: Vec<String> = vec![];
         if watch_variant {
             let mut picked = anti.clone();
@@ -1096,9 +1123,9 @@ impl Property for C17 {
         let mut inv = standard_invocation(rng, &sc, args);
         if watch_variant {
             inv.args.insert(0, "--watch".into());
-            for e in 0..rng.range(1, 3) {
+            for e in 0..rng.range(2, 4) {
                 let mut ops = vec![];
-                for o in 0..rng.range(2, 3) {
+                for o in 0..rng.range(2, 4) {
                     ops.push(simrt::plan::FsOp::Write { path: rng.pick(&watched_files).clone(), content: format!("edit {}.{} during launch\n", e, o) });
                 }
                 let gate = if rng.chance(40) { simrt::plan::Gate::Now } else { simrt::plan::Gate::Step(rng.below(60) as u64) };
